@@ -12,6 +12,9 @@ use core::hash::{BuildHasher, Hash};
 // f64 function polyfill to support no_std contexts
 use crate::polyfill::floor;
 
+#[cfg(feature = "verif-hooks")]
+mod verif;
+
 /// `DEFAULT_2Q_RECENT_RATIO` is the ratio of the [`TwoQueueCache`] dedicated
 /// to recently added entries that have only been accessed once.
 ///
